@@ -105,12 +105,12 @@ def shape_validatePointer : List String := [
   "func validatePointer[T any](value T, ptr *T, checks []core.ZodCheck, validator func(T, []core.ZodCheck, *core.ParseContext) (T, error), ctx *core.ParseContext) (any, error)",
   "if validator == nil",
   ">return ptr, nil",
-  "if hasOverwriteCheck(checks)",
-  ">if np, changed := validatePointerWithOverwrite(ptr, checks, ctx); changed",
-  ">>return np, nil",
   "v, err := validator(value, checks, ctx)",
   "if err != nil",
   ">return nil, err",
+  "if hasOverwriteCheck(checks)",
+  ">if np, changed := validatePointerWithOverwrite(ptr, checks, ctx); changed",
+  ">>return np, nil",
   "*ptr = v",
   "return ptr, nil"
 ]
@@ -157,10 +157,11 @@ def clauseOf (fn : String) (i : Nat) : String :=
   | "hasOverwriteCheck", 2 => "hasOverwrite"
   | "validatePointerWithOverwrite", 1 => "first pass runs ALL checks with the pointer as payload"
   | "validatePointerWithOverwrite", 2 => "early-return condition: no issue and a new pointer"
-  | "validatePointer", 3 => "runChecksOn: ptrIn && hasOverwrite cs"
-  | "validatePointer", 4 => "firstPassFrom; early return when ptrSchema && no issue"
-  | "validatePointer", 6 => "regular pass: runChecks on the pointee"
-  | "validatePointer", 9 => "result written through the pointer"
+  | "validatePointer", 3 => "regular pass FIRST: runChecks on the pointee decides (since /repo 49e6e91)"
+  | "validatePointer", 4 => "rejected by the validator: nothing else runs"
+  | "validatePointer", 6 => "runChecksOn / runChecksC: ptrIn && hasOverwrite cs, after an accepting regular pass"
+  | "validatePointer", 7 => "firstPassFrom / firstPassC afterwards; its value is the result when it has no issue and made a new pointer"
+  | "validatePointer", 9 => "otherwise the regular result, written through the pointer"
   | _, _ => "bookkeeping (no clause of the model depends on it directly)"
 
 def functions : List String := ["executeChecks", "CheckAborted", "RunChecksOnValue", "ApplyChecks", "hasOverwriteCheck", "validatePointerWithOverwrite", "validatePointer", "validateWithChecks"]
